@@ -48,6 +48,14 @@ pub struct Obs {
     pub bits: Vec<u64>,
 }
 
+/// Reads a gradient slot the way a program does; None with `true` when the read itself panicked.
+pub fn safe_grad(h: &Array) -> (Option<Obs>, bool) {
+    match catch_unwind(AssertUnwindSafe(|| h.gradient().as_ref().map(Obs::of))) {
+        Ok(g) => (g, false),
+        Err(_) => (None, true),
+    }
+}
+
 impl Obs {
     pub fn of(a: &Array) -> Obs {
         Obs { dims: a.dimensions().to_vec(), bits: bits(a.values()) }
@@ -192,6 +200,7 @@ pub struct Sim {
     pub train_eval_pending: bool,
     /// nodes whose gradient slot holds a user-stored array of another shape (a pass must not add to it)
     pub user_shaped: BTreeSet<usize>,
+    pub read_panics: std::cell::Cell<u32>,
 }
 
 pub const EXACT_BOUND_F64: f64 = 1125899906842624.0; // 2^50
@@ -289,6 +298,7 @@ impl Sim {
             train_opt_in_use: None,
             train_eval_pending: false,
             user_shaped: BTreeSet::new(),
+            read_panics: std::cell::Cell::new(0),
         }
     }
 
@@ -364,6 +374,11 @@ impl Sim {
 
     // ------------------------------------------------------------------ observation helpers
 
+    /// Reads a gradient slot the way a program does; a read that panics is reported by the caller.
+    fn read_gradient(h: &Array) -> Result<Option<Obs>, ()> {
+        catch_unwind(AssertUnwindSafe(|| h.gradient().as_ref().map(Obs::of))).map_err(|_| ())
+    }
+
     fn observe_grads(&self) -> BTreeMap<usize, Vec<(String, Option<Obs>)>> {
         // per node: the gradient as seen through every live handle of it
         let mut m: BTreeMap<usize, Vec<(String, Option<Obs>)>> = BTreeMap::new();
@@ -371,14 +386,24 @@ impl Sim {
         for (s, hi) in self.info.iter().enumerate() {
             if let Some(hi) = hi {
                 let h = slots[s].as_ref().unwrap();
-                let g = h.gradient().as_ref().map(Obs::of);
-                m.entry(hi.node).or_default().push((format!("s{}", s), g));
+                match Self::read_gradient(h) {
+                    Ok(g) => m.entry(hi.node).or_default().push((format!("s{}", s), g)),
+                    Err(_) => {
+                        self.read_panics.set(self.read_panics.get() + 1);
+                        m.entry(hi.node).or_default().push((format!("s{}", s), None));
+                    }
+                }
             }
         }
         for (i, h) in self.held.iter().enumerate() {
             if let Some(n) = h.node {
-                let g = h.arr.gradient().as_ref().map(Obs::of);
-                m.entry(n).or_default().push((format!("held{}", i), g));
+                match Self::read_gradient(&h.arr) {
+                    Ok(g) => m.entry(n).or_default().push((format!("held{}", i), g)),
+                    Err(_) => {
+                        self.read_panics.set(self.read_panics.get() + 1);
+                        m.entry(n).or_default().push((format!("held{}", i), None));
+                    }
+                }
             }
         }
         m
@@ -387,6 +412,13 @@ impl Sim {
     /// C12 (visibility through every clone) and refresh of `grad_obs`. Returns the per-node view.
     fn sweep_grads(&mut self) -> BTreeMap<usize, Option<Obs>> {
         let per = self.observe_grads();
+        if self.read_panics.get() > 0 {
+            self.read_panics.set(0);
+            let msg = crate::last_panic();
+            self.viol("C10", "gradient_read_panicked", "reading a gradient".into(), format!("gradient() panicked: {}", msg));
+            self.viol("C01", "gradient_read_panicked", "reading a gradient".into(), format!("gradient() panicked: {}", msg));
+            self.dead = true;
+        }
         let mut out = BTreeMap::new();
         for (n, views) in per {
             let first = views[0].1.clone();
@@ -643,13 +675,25 @@ impl Sim {
                 let g = {
                     let slots = self.sh.slots.borrow();
                     let h = slots[*slot].as_ref().unwrap();
-                    if *via_clone {
-                        let c = h.clone();
-                        let g = c.gradient().clone();
-                        g
-                    } else {
-                        let g = h.gradient().clone();
-                        g
+                    catch_unwind(AssertUnwindSafe(|| {
+                        if *via_clone {
+                            let c = h.clone();
+                            let g = c.gradient().clone();
+                            g
+                        } else {
+                            let g = h.gradient().clone();
+                            g
+                        }
+                    }))
+                };
+                let g = match g {
+                    Ok(g) => g,
+                    Err(_) => {
+                        let msg = crate::last_panic();
+                        self.viol("C10", "gradient_read_panicked", "reading a gradient".into(), format!("gradient() panicked: {}", msg));
+                        self.viol("C01", "gradient_read_panicked", "reading a gradient".into(), format!("gradient() panicked: {}", msg));
+                        self.dead = true;
+                        return StepOut::Dead;
                     }
                 };
                 if *via_clone {
@@ -1097,7 +1141,10 @@ impl Sim {
             let slots = self.sh.slots.borrow();
             for (s, hi) in self.info.iter().enumerate() {
                 if hi.is_some() {
-                    let g = slots[s].as_ref().unwrap().gradient().as_ref().map(Obs::of);
+                    let (g, p) = safe_grad(slots[s].as_ref().unwrap());
+                    if p {
+                        self.read_panics.set(self.read_panics.get() + 1);
+                    }
                     self.obs_log.push(ObsRec { event: self.event_index, kind: "pass_before", slot: s, obs: g });
                 }
             }
@@ -1285,7 +1332,10 @@ impl Sim {
             let slots = self.sh.slots.borrow();
             for (s, hi) in self.info.iter().enumerate() {
                 if hi.is_some() {
-                    let g = slots[s].as_ref().unwrap().gradient().as_ref().map(Obs::of);
+                    let (g, p) = safe_grad(slots[s].as_ref().unwrap());
+                    if p {
+                        self.read_panics.set(self.read_panics.get() + 1);
+                    }
                     self.obs_log.push(ObsRec { event: self.event_index, kind: "pass_after", slot: s, obs: g });
                 }
             }
@@ -1423,7 +1473,10 @@ impl Sim {
                 .iter()
                 .map(|s| {
                     let h = sl[*s].as_ref().unwrap();
-                    let g = h.gradient().as_ref().map(Obs::of);
+                    let (g, p) = safe_grad(h);
+                    if p {
+                        self.read_panics.set(self.read_panics.get() + 1);
+                    }
                     (Obs::of(h), g, read_flag(h))
                 })
                 .collect()
@@ -1509,7 +1562,10 @@ impl Sim {
             let (now, now_g, now_flag) = {
                 let sl = self.sh.slots.borrow();
                 let h = sl[*s].as_ref().unwrap();
-                let g = h.gradient().as_ref().map(Obs::of);
+                let (g, p) = safe_grad(h);
+                if p {
+                    self.read_panics.set(self.read_panics.get() + 1);
+                }
                 (Obs::of(h), g, read_flag(h))
             };
             let class = format!("param {} of {} dims {:?} frozen {:?}", k, slots.len(), old.dims, frozen);
